@@ -6,6 +6,7 @@ from hypothesis import strategies as st
 
 from .. import arr as A
 from .. import unit as U
+from ..core import drive_enum
 from ..core import Failure, drive
 from ..gen import arrays as G
 from ..ref import commands as R
@@ -57,6 +58,12 @@ def check_unit(case, rec):
     sig = "%s|%s" % (cmd, "n%d" % len(base_arrays))
     st0, r0 = A.run_command(cmd, base_arrays, case["params"])
     tol = 1e-5 if any(sp["dtype"] == "float32" for sp in case["arrays"]) else 1e-9
+    if cmd in R.STATISTICAL and base_arrays:
+        # statistics of values with a large common offset are conditioned by offset / spread: the order of summation
+        # legitimately moves the result by a few thousand units of round-off times that ratio, and no more
+        valid = numpy.concatenate([numpy.ma.compressed(a).astype(float) for a in base_arrays]) if n_cells else numpy.zeros(0)
+        if valid.size and numpy.isfinite(valid).all() and valid.std() > 0:
+            tol = max(tol, 2000 * 2.3e-16 * float(numpy.abs(valid).max()) / float(valid.std()))
     fails = []
     rec.label("cmd:" + cmd)
     if st0 == "ok":
@@ -153,5 +160,28 @@ def perm_case(draw):
 PARTS = {"unit": check_unit}
 
 
+OFFSET_PARAMS = {
+    "Normalize": {}, "NormalizeZScore": {"TrueThresholdZScore": 1, "FalseThresholdZScore": -1}, "CvtToFuzzyZScore": {},
+    "NormalizeMeanToMid": {"IgnoreZeros": False, "NormalValues": [0, 0.25, 0.5, 0.75, 1]},
+    "CvtToFuzzyMeanToMid": {"IgnoreZeros": False, "FuzzyValues": [-1, -0.5, 0, 0.5, 1]},
+    "NormalizeCurveZScore": {"ZScoreValues": [-1, 0, 1], "NormalValues": [0, 0.5, 1]},
+    "CvtToFuzzyCurveZScore": {"ZScoreValues": [-1.5, 0, 1.5], "FuzzyValues": [-1, 0, 1]},
+}
+
+
+def offset_cases():
+    """Coordinates, time stamps: values with a large common offset and a small spread, under the commands that take
+    statistics of the whole field -- rearranged, reshaped and transposed like everything else."""
+    steps = [0.0, 0.37, 1.12, 1.9, 2.75, 3.3, 4.05, 4.6, 5.81, 6.2, 7.33, 8.0]
+    for offset in (4512340.0, 1.7e9, -250000.0):
+        data = [offset + d for d in steps]
+        for cmd in sorted(OFFSET_PARAMS):
+            for perm in (list(range(12))[::-1], list(range(5, 12)) + list(range(5)), [7, 2, 11, 0, 9, 4, 1, 10, 5, 8, 3, 6]):
+                for mask in (None, [0, 0, 1, 0, 0, 0, 0, 0, 0, 1, 0, 0]):
+                    yield {"cmd": cmd, "params": OFFSET_PARAMS[cmd], "arrays": [{"data": data, "mask": mask, "dtype": "float64"}],
+                           "perm": perm, "shape": [12], "rep": None}
+
+
 def run_shard(ctx, rec):
+    drive_enum(ctx, rec, "unit", offset_cases(), check_unit, exhaustive=True, tag="unit/large_offset")
     drive(ctx, rec, "unit", perm_case(), check_unit, ctx.n(3000, 100000))
